@@ -317,6 +317,25 @@ func genC12Recovery(cfg Config, ws *WorldSet, wi, t int) C12Case {
 	return C12Case{World: world, Steps: steps, Mode: "recovery"}
 }
 
+// genC12Edit: the edit templates, systematically for every variant of the setup
+// file: [run, edit to v, run] and [run, edit to v, run, edit back, run].
+func genC12Edit(ws *WorldSet, wi, t int) C12Case {
+	world := ws.Worlds[wi]
+	iv := SetupInv(world)
+	setup := "{W}/" + world.Setup
+	nv := len(world.Variants)
+	v := t % nv
+	if v == 3 && hasSiblingGoFiles(world) { // index 3 = variant 4 (package renamed)
+		v = 0
+	}
+	mk := func() Step { i := iv; return Step{Op: "run", Inv: &i, Bin: "plain"} }
+	steps := []Step{mk(), {Op: "edit", Path: setup, Data: []byte(world.Variants[v]), Note: fmt.Sprintf("variant %d", v+1)}, mk()}
+	if (t/nv)%2 == 1 {
+		steps = append(steps, Step{Op: "edit", Path: setup, Data: []byte(world.Files[world.Setup]), Note: "variant 0"}, mk())
+	}
+	return C12Case{World: world, Steps: steps, Mode: "edit"}
+}
+
 // genC12Enum: every truncation point (and zero-filled tail) of the canonical output.
 func genC12Enum(ws *WorldSet, wi, k int, zero bool) C12Case {
 	world := ws.Worlds[wi]
@@ -678,7 +697,19 @@ func runC12(cfg Config, args []string) int {
 			rec = append(rec, recItem{wi, t})
 		}
 	}
-	b := &Batch[C12Case]{Property: "C12", Level: "fault_enumeration", Cfg: cfg, Env: env, N: nHist + len(enum) + len(rec),
+	// edit templates for the same kind of worlds (one more of them)
+	var edits []recItem
+	cnt = 0
+	for wi := range worlds {
+		if !canon[wi].Accepted || len(worlds[wi].Variants) == 0 || cnt >= recWorlds+1 {
+			continue
+		}
+		cnt++
+		for t := 0; t < 2*len(worlds[wi].Variants); t++ {
+			edits = append(edits, recItem{wi, t})
+		}
+	}
+	b := &Batch[C12Case]{Property: "C12", Level: "fault_enumeration", Cfg: cfg, Env: env, N: nHist + len(enum) + len(rec) + len(edits),
 		Gen: func(i int) C12Case {
 			if i < len(enum) {
 				return genC12Enum(ws, enum[i].wi, enum[i].k, enum[i].zero)
@@ -686,16 +717,19 @@ func runC12(cfg Config, args []string) int {
 			if i < len(enum)+len(rec) {
 				return genC12Recovery(cfg, ws, rec[i-len(enum)].wi, rec[i-len(enum)].t)
 			}
-			return genC12(cfg, ws, i-len(enum)-len(rec))
+			if i < len(enum)+len(rec)+len(edits) {
+				return genC12Edit(ws, edits[i-len(enum)-len(rec)].wi, edits[i-len(enum)-len(rec)].t)
+			}
+			return genC12(cfg, ws, i-len(enum)-len(rec)-len(edits))
 		},
 		Exec:   func(c C12Case) CaseResult { return execC12(env, c) },
 		Shrink: shrinkC12,
 		Rule: "histories of 3-8 seeded steps (run / edit setup file / run killed by SIGKILL inside its final write at byte k with a durability model / truncate / zero-filled tail / broken Go of the same package / write failing after k bytes) in fixture and synthetic worlds, " +
 			"every fault-free run compared with a twin run of the same binary on the same sources and flags in a pristine world with nothing at the output path; plus enumeration of truncation points k of the canonical output " +
-			"(thorough: every k and every zero-filled tail for up to 10 accepted worlds; quick: k<=80 for two worlds); plus crash-recovery templates for every crash kind (before/after the open, mid-write, before the close, before/after a rename onto the output): [crash, run] and [edit to a longer setup, (run,) crash, edit back, run]. distinct_nontrivial counts distinct (world, residue kind, where the residue ends, flag set, twin status) tuples at compared runs.",
+			"(thorough: every k and every zero-filled tail for up to 10 accepted worlds; quick: k<=80 for two worlds); plus crash-recovery templates for every crash kind (before/after the open, mid-write, before the close, before/after a rename onto the output): [crash, run] and [edit to a longer setup, (run,) crash, edit back, run]; and edit templates for every variant of the setup file (method added / removed, notation swapped, comment appended, package renamed, import renamed): [run, edit, run] and [run, edit, run, edit back, run]. distinct_nontrivial counts distinct (world, residue kind, where the residue ends, flag set, twin status) tuples at compared runs.",
 		Assume: []string{"only the residue categories the property names are generated: older output, truncation at any byte (also with zero-filled tail / block-aligned cut), syntactically broken Go of the same package",
 			"stderr is not compared (not in the statement)"},
-		Extra:    map[string]any{"components_real": componentsReal, "components_simulated": componentsSim, "seam": env.Seam, "enumerated_truncation_cases": len(enum), "crash_recovery_template_cases": len(rec), "history_cases": nHist, "simulated_time": "not applicable: convergen reads no clock"},
+		Extra:    map[string]any{"components_real": componentsReal, "components_simulated": componentsSim, "seam": env.Seam, "enumerated_truncation_cases": len(enum), "crash_recovery_template_cases": len(rec), "edit_template_cases": len(edits), "history_cases": nHist, "simulated_time": "not applicable: convergen reads no clock"},
 		Required: []string{"n:compared_runs_with_something_at_output", "n:crashes_landed_in_write"},
 	}
 	rep := RunBatch(b, start)
